@@ -218,7 +218,7 @@ fn run_scenario(sc: &Value, idx: usize, bin: &Path, scratch: &Path, local: bool)
     fs::write(d.join("state/plan.json"), json!(plan).to_string()).unwrap();
     fs::write(d.join("scenario.json"), json!({"script": script, "cfg": cfg}).to_string()).unwrap();
     let fixture_root = if local { d.join("proj/fixture app") } else { d.join("proj") };
-    let fixture_before = fsnap::snapshot(&fixture_root);
+    let fixture_before = (fsnap::snapshot(&fixture_root), fsnap::snapshot(&d.join("elsewhere")));
     let mut command = Command::new(bin.join("scenario"));
     command.arg(d.join("scenario.json")).current_dir(d.join("decoy cwd")).env_clear().envs(std::env::var_os("LLVM_PROFILE_FILE").map(|v| ("LLVM_PROFILE_FILE", v)))
         .env("PATH", format!("{}:/usr/bin:/bin", d.join("bin").display())).env("STANDIN_STATE", d.join("state"))
@@ -345,7 +345,7 @@ fn run_scenario(sc: &Value, idx: usize, bin: &Path, scratch: &Path, local: bool)
                         else if preproc {
                             let listing: Vec<String> = e["path_listing"].as_array().map(|a| a.iter().map(|x| x.as_str().unwrap().to_string()).collect()).unwrap_or_default();
                             if fs::canonicalize(&path[0]).ok() == fs::canonicalize(&fixture).ok() { p17.push("pack build: a preprocessor is configured but the fixture itself was passed as app path".into()); }
-                            else if !(listing.contains(&"added-by-preprocessor".to_string()) && listing.contains(&"sub".to_string()) && !listing.contains(&"Procfile".to_string()) && (!via_link || listing.contains(&"the-right-one".to_string()))) { p17.push(format!("pack build: the private app copy does not carry the preprocessor's changes: {listing:?}")); }
+                            else if !(listing.contains(&"added-by-preprocessor".to_string()) && listing.contains(&"sub".to_string()) && !listing.contains(&"Procfile".to_string()) && listing.contains(&"sub/file=rewritten+appended".to_string()) && (!via_link || listing.contains(&"the-right-one".to_string()))) { p17.push(format!("pack build: the private app copy does not carry the preprocessor's changes: {listing:?}")); }
                         }
                         let _ = flags;
                         argv_events.push(json!({"kind": "pack-build", "argv": argv.iter().map(|a| tok(a)).collect::<Vec<_>>(),
@@ -436,8 +436,12 @@ fn run_scenario(sc: &Value, idx: usize, bin: &Path, scratch: &Path, local: bool)
     }
     let temps_left = fs::read_dir(d.join("tmp")).map(|rd| rd.count()).unwrap_or(0);
     if temps_left != 0 { p16.push(format!("{temps_left} temporary directories left behind in TMPDIR")); }
-    let fixture_after = fsnap::snapshot(&fixture_root);
-    if fixture_before != fixture_after { p17.push(format!("the app fixture was modified: {:?}", fsnap::diff(&fixture_before, &fixture_after))); }
+    let fixture_after = (fsnap::snapshot(&fixture_root), fsnap::snapshot(&d.join("elsewhere")));
+    if fixture_before != fixture_after {
+        let mut diff = fsnap::diff(&fixture_before.0, &fixture_after.0);
+        diff.extend(fsnap::diff(&fixture_before.1, &fixture_after.1));
+        p17.push(format!("the app fixture was modified: {diff:?}"));
+    }
     Outcome { problems16: p16, problems17: p17, event: json!({"cmds": cmds, "temps_left": temps_left, "script": script}), argv_events }
 }
 
